@@ -416,10 +416,17 @@ Definition so_setattr (o : nat) (c : nat) (v : val) : M unit :=
     if cache_values (i_k i) && negb (i_expired i) then upd_inst o (set_val c v) else ret tt.
 
 (* the multi-column set method *)
+(* keywords that name no column go to `extra`; the only one the harness uses (index >= ncols) is unknown to the class:
+   TypeError -- raised before anything is cached or queued on a lazy object (fix 6e79cab), after the validation of the
+   column values on a direct one *)
+Definition is_col (c : nat) : bool := Nat.ltb c ncols.
 Definition so_set (o : nat) (kvs : list (nat * val)) : M unit :=
   i <- gets (fun s => get_inst s o) ;;
-  let kw := as_dict kvs in
+  let kw := filter (fun cv => is_col (fst cv)) (as_dict kvs) in
+  let unknown := existsb (fun cv => negb (is_col (fst cv))) kvs in
+  (if is_lazy (i_k i) && unknown then raise ETypeError else ret tt) ;;;
   validate_all kw ;;;
+  (if unknown then raise ETypeError else ret tt) ;;;
   if is_lazy (i_k i) then
     upd_inst o (fun i => i_with_dirty (i_with_pending (fold_left (fun i cv => set_val (fst cv) (snd cv) i) kw i)
                                                      (pending_update kw (i_pending i)))
@@ -453,8 +460,10 @@ Definition so_sync (o : nat) : M unit :=
 Definition so_expire (o : nat) : M unit :=
   i <- gets (fun s => get_inst s o) ;;
   upd_inst o (fun i => i_with_vals i (map (fun _ => None) (i_vals i))) ;;;
-  upd_inst o (fun i => i_with_expired i true) ;;;
-  cache_expire (i_k i) (i_id i) ;;;
+  (* the cache entry of the row is dropped on the first expiry only: an instance that is expired already left the
+     cache then, and the entry of its id may be another instance's by now *)
+  (if i_expired i then ret tt
+   else upd_inst o (fun i => i_with_expired i true) ;;; cache_expire (i_k i) (i_id i)) ;;;
   upd_inst o (fun i => i_with_cv (i_with_dirty (i_with_pending i []) false) true).
 
 (* attribute read *)
